@@ -101,6 +101,13 @@ func loadPrelude(path string) error {
 		fields := strings.Fields(f)
 		head := strings.TrimPrefix(fields[0], "(")
 		switch head {
+		case "declare-const":
+			name := fields[1]
+			pf.defines = name
+			res := strings.TrimSuffix(strings.TrimSpace(f[strings.Index(f, name)+len(name):]), ")")
+			prelude.consts[name] = strings.TrimSpace(res)
+			prelude.funcs[name] = preludeSig{nil, strings.TrimSpace(res)}
+			prelude.syms[name] = true
 		case "define-fun", "declare-fun":
 			name := fields[1]
 			pf.defines = name
@@ -268,9 +275,19 @@ func preludeFor(body string) string {
 func (ex *Exec) script(ob *Obligation, negate bool) string { return ex.scriptWith(ob, negate, "") }
 
 func (ex *Exec) scriptWith(ob *Obligation, negate bool, extra string) string {
+	return ex.scriptOpts(ob, negate, extra, false)
+}
+
+// scriptOpts: with dropQuant every quantified hypothesis is left out. The result is weaker than
+// the real query, so it is only used to hunt for candidate counterexamples that are then
+// replayed on the real code; never to discharge anything.
+func (ex *Exec) scriptOpts(ob *Obligation, negate bool, extra string, dropQuant bool) string {
 	var body strings.Builder
 	body.WriteString(extra)
 	for _, p := range ob.PC {
+		if dropQuant && strings.Contains(p, "(forall ") {
+			continue
+		}
 		body.WriteString("(assert " + p + ")\n")
 	}
 	if negate {
@@ -298,7 +315,18 @@ func (ex *Exec) scriptWith(ob *Obligation, negate bool, extra string) string {
 	sort.Strings(decls)
 	var out strings.Builder
 	out.WriteString("(set-option :produce-models true)\n(set-logic ALL)\n")
-	out.WriteString(preludeFor(bs))
+	pre := preludeFor(bs)
+	if dropQuant {
+		var kept []string
+		for _, f := range splitForms(pre) {
+			if strings.HasPrefix(f, "(assert") && strings.Contains(f, "(forall ") {
+				continue
+			}
+			kept = append(kept, f)
+		}
+		pre = strings.Join(kept, "\n") + "\n"
+	}
+	out.WriteString(pre)
 	out.WriteString(strings.Join(decls, "\n"))
 	out.WriteString("\n")
 	sort.Strings(globals)
@@ -371,10 +399,10 @@ func solverCmd(which string, timeout time.Duration, seed int) (string, []string)
 }
 
 type SolveCfg struct {
-	T1, T2  time.Duration
-	Seed    int
-	Workers int
-	SaveDir string
+	T1, T2   time.Duration
+	Seed     int
+	Workers  int
+	SaveDir  string
 	AllAgree bool
 }
 
@@ -473,6 +501,13 @@ func (ex *Exec) decide(ob *Obligation, cfg SolveCfg) {
 		ss = append(ss, rr.solver+":"+rr.status)
 	}
 	ob.Solver = strings.Join(ss, ",")
+	// model hunt: quantifier-free weakening, only to obtain a candidate input for replay
+	hunt := ex.scriptOpts(ob, true, "", true)
+	n2, a2 := solverCmd("z3new", 5*time.Second, cfg.Seed)
+	if hr := runSolver(n2, a2, hunt, 5*time.Second, true); hr.status == "sat" {
+		ob.Model = hr.out
+		ob.Hunted = true
+	}
 }
 
 func (ex *Exec) decideAll(obls []*Obligation, cfg SolveCfg) {
